@@ -51,6 +51,23 @@ CLAIMED = {
     note='eigh/svd/qr outputs are fresh variables per distinct input (free contract); exact reals; that the eigen-form equals the matrix inverse root needs '
          'orthonormality and is declined (stretch); the Sketchy sketch update itself is C09.',
     design='§3 C15', technique='jaxpr->SMT symbolic evaluation vs reference model, stubbed decompositions, z3'),
+  'C03': dict(
+    text='Bit-precise FP32 (QF_FP) verification of the acceptance gate on the real update jaxprs (replicated, pmap+int16-quantized, sharded): root outputs and '
+         'reported errors are unconstrained float32 (NaN, +-Inf included), stored state and gradients arbitrary; z3 proves for all of them and every step index that '
+         'each stored preconditioner is bit-for-bit the old one or a root whose error is finite and strictly below the threshold, and that preconditioners and all '
+         'metric leaves are bit-identical off-schedule; found (now fixed) the arithmetic blend in the sharded path; violations are replayed by fault injection '
+         '(NaN/Inf/huge/tiny gradients at random steps) on the real optimizers.',
+    note='Root routine is a stub with contract "error is NaN or >= 0"; float arithmetic feeding the gate is abstracted to fresh values (over-approximation); '
+         'finiteness of the update for moderate gradients (last sentence of the property) is not attempted; thresholds {0, 2^-100, 0.125, 3e38}.',
+    design='§3 C03', technique='jaxpr->SMT symbolic evaluation in QF_FP (bit-precise float32), cone abstraction, z3'),
+  'C13': dict(
+    text='Bounded SMT verification of device-count invariance: the real update jaxpr traced under axis_env=[(batch, D)] is evaluated SPMD (one symbolic '
+         'evaluator per device, axis_index/psum/all_gather with collective semantics) on replicated symbolic inputs and every device\'s updates and new state '
+         'are proved equal to the D=1 evaluation for all values (full, int16-quantized, low-rank-compressed preconditioners; N mod D covering all residues); '
+         'sharded variant: declared num_devices_for_pjit = D versus 1. Violations are replayed with real jax.pmap over forced host devices.',
+    note='Roots are uninterpreted functions of the unpadded block (padding invariance assumed); D <= 3 quick / <= 5 thorough, N <= 9; sharded mode uses a '
+         'one-device mesh (declared device count only drives padding).',
+    design='§3 C13', technique='SPMD symbolic evaluation of the axis_env jaxpr to SMT, z3'),
 }
 NA = {
   'C07': 'decided by tracing each configuration (abstract evaluation), no input/step/state variable is left for a solver to range over; '
